@@ -21,6 +21,9 @@ structure HMv (h h' : HalfLock.Sys) (t : Nat) (p p' : Phase) (o : Obs) : Prop wh
   data : h'.data = o.newData h.data
   live : h'.live = o.newLive h.live
   owner : h'.mutexOwner = o.newOwner t h.mutexOwner
+  /-- every step of `read()` brings the pin one step closer -/
+  pre : (p = .idle ∨ ∃ u, p = .rPre u) → ((∃ u, p' = .rPre u) ∨ ∃ q u, p' = .rHold q u) →
+    HalfLock.preA (pcAt h' t) + 1 = HalfLock.preA (pcAt h t)
 
 /-- the dispatcher's plan from the contents of the two pinned snapshots -/
 def planOf (dp : SigData) (fp : Option (Int × Disp)) (sig : Int) : Option Disp × List Nat :=
@@ -199,7 +202,11 @@ theorem hmv_of {h0 h h' : HalfLock.Sys} {t : Nat} {cmd : Option HalfLock.Cmd} {o
     (mv : Mv h0 h' t cmd o) (e0 : h0.data = h.data) (e1 : h0.live = h.live) (e2 : h0.mutexOwner = h.mutexOwner)
     (e3 : h0.threads = h.threads) (hp : phaseAt h t = p) (hp' : phaseAt h' t = p') : HMv h h' t p p' o :=
   ⟨hp, hp', fun j hj => by rw [mv.others j hj]; simp [phaseAt, pcAt, e3],
-   by rw [mv.eff.data, e0], by rw [mv.eff.live, e1], by rw [mv.eff.mutex, e2]⟩
+   by rw [mv.eff.data, e0], by rw [mv.eff.live, e1], by rw [mv.eff.mutex, e2],
+   fun h1 h2 => by
+     have hph : phaseAt h0 t = phaseAt h t := by simp [phaseAt, pcAt, e3]
+     have := mv.pre (by rw [hph, hp]; exact h1) (by rw [hp']; exact h2)
+     rw [this]; simp [pcAt, e3]⟩
 
 theorem dispatchPlan_eq (s : Sys) (t : Nat) (sig : Int) (p pf u u' : Nat)
     (hd : phaseAt s.hd t = .rHold p u) (hf : phaseAt s.hf t = .rHold pf u') :
